@@ -45,7 +45,7 @@ class Spec(PureLibMixin, BaseSpec):
         super().__init__(PROP)
         self.inline_files |= {MEM}
         self.obj_methods = {"append": self.q_append, "popleft": self.q_popleft, "items": self.t_items, "pop": self.t_mutate, "clear": self.t_mutate,
-                            "popitem": self.t_mutate, "update": self.t_mutate, "setdefault": self.t_setdefault, "set_result": self.m_noop}
+                            "popitem": self.t_mutate, "update": self.t_mutate, "setdefault": self.t_setdefault, "set_result": self.m_noop, "get": self.t_get}
         self.assumptions |= {
             "composition rule (not machine-checked): lock discipline G1-G3 + sequential contracts S1-S2 imply linearisability of publish / iteration steps, hence exactly-once FIFO delivery under every interleaving",
             "threading.Lock is a correct mutual-exclusion lock; deque.append / popleft / bool and dict reads are atomic under the GIL; list(dict.items()) is an atomic snapshot",
@@ -106,9 +106,48 @@ class Spec(PureLibMixin, BaseSpec):
 
     def obj_setitem(self, I, v, key, value):
         if self.is_table(I, v):
-            self.oblige(I, "G2/channel-entries-are-never-replaced", z3.BoolVal(False), meta={"witness": "entry-replaced"})
+            # an explicit assignment creates the entry only if, in the SAME critical section of the table lock, the key was found
+            # absent; anything else may overwrite an entry another thread created in between (and the messages queued on it)
+            st = I.st
+            key = I.lift(key)
+            t = st.ghost.get("absent_test")
+            ok = (t is not None and bool(st.valid(t[0] == key)) and t[1] == st.ghost.get("acquired") and bool(st.valid(self.holds(I, self.TABLE_LOCK))))
+            self.oblige(I, "G2/channel-entries-are-never-replaced(assignment-only-after-an-absence-test-under-the-table-lock)", z3.BoolVal(ok),
+                        meta={"witness": "entry-replaced"})
+            rid = V.id(self.CHANNELS)
+            st.h.sdom = z3.Store(st.h.sdom, rid, z3.Store(z3.Select(st.h.sdom, rid), key, True))
+            # the pair just stored IS the channel's (deque, lock) from now on
+            parts = I.models.iterate_concrete(I, I.lower(value)) if hasattr(I, "models") else None
+            if parts is not None and len(parts) == 2:
+                q_, l_ = I.lift(parts[0]), I.lift(parts[1])
+                st.assume(z3.And(QOf(V.s(key)) == V.oid(q_), LOf(V.s(key)) == V.oid(l_), ChanOfDeque(V.oid(q_)) == V.s(key)))
             return
         return super().obj_setitem(I, v, key, value)
+
+    def _absent(self, I, key):
+        """membership of `key` in the channel table, decided on the path; an absence result is remembered with the critical section it
+        was obtained in"""
+        st = I.st
+        known = z3.Select(z3.Select(st.h.sdom, V.id(self.CHANNELS)), key)
+        if st.decide(known, "channel-exists"):
+            return False
+        st.ghost["absent_test"] = (key, st.ghost.get("acquired") if bool(st.valid(self.holds(I, self.TABLE_LOCK))) else None)
+        return True
+
+    def t_get(self, I, recv, args, kwargs, star):
+        if self.is_table(I, recv):
+            key = I.lift(args[0])
+            if self._absent(I, key):
+                return args[1] if len(args) > 1 else NONE
+            st = I.st
+            st.assume(ChanOfDeque(QOf(V.s(key))) == V.s(key))
+            return vtup([V.obj(QOf(V.s(key))), V.obj(LOf(V.s(key)))])
+        raise OutsideSubset("get() on an opaque object")
+
+    def obj_contains(self, I, v, x):
+        if self.is_table(I, v):
+            return z3.BoolVal(not self._absent(I, I.lift(x)))
+        return super().obj_contains(I, v, x)
 
     def t_mutate(self, I, recv, args, kwargs, star):
         if self.is_table(I, recv):
@@ -180,6 +219,8 @@ class Spec(PureLibMixin, BaseSpec):
             return V.obj(fresh("future", I_))
         if dotted == "threading.Thread":
             raise OutsideSubset("callback thread (outside this harness)")
+        if dotted in ("collections.deque", "threading.Lock", "threading.RLock") and not args:
+            return V.obj(fresh("new_" + dotted.split(".")[-1].lower(), I_))       # a fresh, empty deque / an unheld lock
         return super().ext_call(I, dotted, args, kwargs, star)
 
     def instantiate_override(self, I, ci, args, kwargs, star):
